@@ -1,6 +1,6 @@
 (* Model of util/semver/maven.go: element comparison and canonical printer.
    (The parser mavenExtension.init is in MavenParse.v.)  Definitions only. *)
-From DepsDev Require Import Lib.Base Semver.Version Gen.SemverTables.
+From DepsDev Require Import Lib.Base Semver.Version Gen.SemverTables Gen.MavenVariants.
 Local Open Scope Z_scope.
 
 (* version categories (extension.go); versionNumeric must be > versionQualifier *)
@@ -147,4 +147,12 @@ Fixpoint maven_canon_from (first : bool) (l : list mvn_elem) : bytes :=
   | [] => []
   | e :: t => (if first then [] else [me_sep e]) ++ me_str e ++ maven_canon_from false t
   end.
-Definition maven_canon (l : list mvn_elem) : bytes := maven_canon_from true l.
+(* head_sep: whether a non-zero separator of the first element is printed (the repair of F-C10-2)
+   or never (the code as found).  The variant in the tree is read by gotables. *)
+Definition maven_canon_with (head_sep : bool) (l : list mvn_elem) : bytes :=
+  match l with
+  | [] => []
+  | e :: t =>
+      (if head_sep && negb (N.eqb (me_sep e) 0) then [me_sep e] else []) ++ me_str e ++ maven_canon_from false t
+  end.
+Definition maven_canon (l : list mvn_elem) : bytes := maven_canon_with go_mvn_canon_head_sep l.
